@@ -26,7 +26,7 @@ Section RingProofs.
   Variables K B : nat.
   Hypothesis HK : 2 <= K.
   Hypothesis HB : 1 <= B.
-  Variable prog0 : list (list Z).
+  Variable prog0 : list rop.
 
   Definition rinit := ring_init 0 K B prog0.
 
@@ -157,9 +157,17 @@ Section RingProofs.
           -- intros n Hn. rewrite Nat.sub_0_r in *. rewrite Jpi, (win_upd' _ _ _ _ (r_ca s)) by lia.
              rewrite (Jwin n) by lia. intuition (try congruence; try lia).
           -- intros _. rewrite Nat.sub_0_r, Jpi, upd_same. exact Ecur.
-      + (* first write() *)
-        unfold r_loop_test. destruct (Nat.ltb B (r_cur s + length w));
-          constructor; runf; rewrite ?Epc, ?Ecp in *; try rfin.
+      + (* first call *)
+        destruct w as [w|amount w].
+        * unfold r_loop_test. destruct (Nat.ltb B (r_cur s + length w));
+            constructor; runf; rewrite ?Epc, ?Ecp in *; try rfin.
+        * destruct (Nat.ltb B (r_cur s + amount) && negb (Nat.eqb (r_cur s) 0)) eqn:Esp.
+          -- apply andb_true_iff in Esp. destruct Esp as [_ Ecur]. apply negb_true_iff, Nat.eqb_neq in Ecur.
+             constructor; runf; rewrite ?Epc, ?Ecp in *; try rfin; try (rewrite Jpi; exact Hnext).
+             ++ intros n Hn. rewrite Nat.sub_0_r in *. rewrite Jpi, (win_upd' _ _ _ _ (r_ca s)) by lia.
+                rewrite (Jwin n) by lia. intuition (try congruence; try lia).
+             ++ intros _. rewrite Nat.sub_0_r, Jpi, upd_same. exact Ecur.
+          -- constructor; runf; rewrite ?Epc, ?Ecp in *; try rfin.
     - (* RPFill *)
       destruct (Nat.eqb B 0) eqn:EB0; [apply Nat.eqb_eq in EB0; lia|]. inversion H; subst s'; clear H.
       assert (Ecp : r_cpc s <> RCNotStarted) by (intros E; apply Jst in E; destruct E; discriminate).
@@ -174,8 +182,13 @@ Section RingProofs.
       destruct (r_prog s) as [|w rest] eqn:Eprog.
       + destruct (Nat.eqb (r_cur s + length (r_pend s)) 0) eqn:Ecur; [|apply Nat.eqb_neq in Ecur];
           constructor; runf; rewrite ?Epc in *; try rfin; try (rewrite Jpi; exact Hnext); try t_rest Jpi Jci Jwin Jwr Jst Ecp.
-      + unfold r_loop_test. destruct (Nat.ltb B (r_cur s + length (r_pend s) + length w));
-          constructor; runf; rewrite ?Epc in *; try rfin; try t_rest Jpi Jci Jwin Jwr Jst Ecp.
+      + destruct w as [w|amount w].
+        * unfold r_loop_test. destruct (Nat.ltb B (r_cur s + length (r_pend s) + length w));
+            constructor; runf; rewrite ?Epc in *; try rfin; try t_rest Jpi Jci Jwin Jwr Jst Ecp.
+        * destruct (Nat.ltb B (r_cur s + length (r_pend s) + amount) && negb (Nat.eqb (r_cur s + length (r_pend s)) 0)) eqn:Esp.
+          -- apply andb_true_iff in Esp. destruct Esp as [_ Ecur]. apply negb_true_iff, Nat.eqb_neq in Ecur.
+             constructor; runf; rewrite ?Epc in *; try rfin; try (rewrite Jpi; exact Hnext); try t_rest Jpi Jci Jwin Jwr Jst Ecp.
+          -- constructor; runf; rewrite ?Epc in *; try rfin; try t_rest Jpi Jci Jwin Jwr Jst Ecp.
     - (* RPSpillPost *)
       assert (Ecp : r_cpc s <> RCNotStarted) by (intros E; apply Jst in E; destruct E; discriminate).
       inversion H; subst s'; clear H. runf. rewrite ?Epc in *.
@@ -320,4 +333,438 @@ Section RingProofs.
       try (exfalso; lia);
       try (split; reflexivity).
   Qed.
+
+  (* ---- content: the file is the concatenation of the writes ---- *)
+
+  (* an in-place value fits into the space Ensure() reserved for it, and that space into a block *)
+  Definition rop_ok (o : rop) : Prop :=
+    match o with RWrite _ => True | RPut amount bytes => length bytes <= amount /\ amount <= B end.
+  Hypothesis Hprog0 : Forall rop_ok prog0.
+  Definition allbytes (p : list rop) : list Z := concat (map rop_bytes p).
+
+  Definition curpart (s : rstate) : list Z :=
+    if owner_holds s then firstn (r_cur s) (r_data s (r_pi s)) else [].
+
+  Record FInv (s : rstate) : Prop := {
+    fi_len : length (r_hist s) = r_pa s;
+    fi_file : r_file s = concat (firstn (r_ca s) (r_hist s));
+    fi_win : forall n, r_ca s <= n < r_pa s ->
+             firstn (r_size s (n mod K)) (r_data s (n mod K)) = nth n (r_hist s) [];
+    fi_all : concat (r_hist s) ++ curpart s ++ r_pend s ++ allbytes (r_prog s) = allbytes prog0;
+    fi_ok : Forall rop_ok (r_prog s);
+    fi_cur : owner_holds s = true -> r_cur s <= length (r_data s (r_pi s)) /\ r_cur s <= B;
+    fi_start : (r_ppc s = RPCtorWait \/ r_ppc s = RPSpawn) -> r_pend s = [] /\ r_cur s = 0;
+    fi_rest : r_ppc s = RPRest -> r_cur s + length (r_pend s) <= B;
+    fi_fillgt : r_ppc s = RPFill -> B < r_cur s + length (r_pend s);
+    fi_flush : r_flushes s = match r_cpc s with RCEnd | RCDone => 1 | _ => 0 end;
+    fi_pois : (poison_posted s = true \/ r_ppc s = RPPoisonPost) ->
+              nth (r_pa s - 1) (r_hist s) [] = [] /\ r_pend s = [] /\ r_prog s = [];
+    fi_dtor : (r_ppc s = RPSpillPost true \/ r_ppc s = RPSpillWait true) -> r_pend s = [] /\ r_prog s = [];
+  }.
+
+  Lemma finv_init : FInv rinit.
+  Proof.
+    unfold rinit, ring_init. constructor; simpl; unfold curpart, owner_holds, poison_posted; simpl; auto.
+    - intros n Hn. lia.
+    - intros H; discriminate.
+    - intros H; discriminate.
+    - intros H; discriminate.
+    - intros [H|H]; discriminate.
+    - intros [H|H]; discriminate.
+  Qed.
+
+  Lemma nth_app_old {A} (l : list A) x n d : n < length l -> nth n (l ++ [x]) d = nth n l d.
+  Proof. intros H. apply app_nth1. exact H. Qed.
+
+  Lemma nth_app_new {A} (l : list A) x d : nth (length l) (l ++ [x]) d = x.
+  Proof. rewrite app_nth2 by lia. rewrite Nat.sub_diag. reflexivity. Qed.
+
+  Lemma concat_firstn_S (l : list (list Z)) k : k < length l ->
+    concat (firstn (S k) l) = concat (firstn k l) ++ nth k l [].
+  Proof.
+    revert k. induction l as [|a l IH]; intros k H; simpl in *; [lia|].
+    destruct k as [|k]; simpl; [rewrite app_nil_r; reflexivity|].
+    rewrite IH by lia. rewrite app_assoc. reflexivity.
+  Qed.
+
+  Lemma firstn_app_keep {A} (l : list A) x k : k <= length l -> firstn k (l ++ x) = firstn k l.
+  Proof. intros H. rewrite firstn_app. replace (k - length l) with 0 by lia. simpl. apply app_nil_r. Qed.
+
+  (* the owner leaves block [r_pi s] (absolute number r_pa s) with new content; window and history agree *)
+  Lemma handover_win (s : rstate) (data' : nat -> list Z) (size' : nat -> nat) :
+    r_pi s = r_pa s mod K -> r_ca s <= r_pa s -> r_pa s - r_ca s < K -> length (r_hist s) = r_pa s ->
+    (forall m, m <> r_pi s -> data' m = r_data s m /\ size' m = r_size s m) ->
+    (forall n, r_ca s <= n < r_pa s -> firstn (r_size s (n mod K)) (r_data s (n mod K)) = nth n (r_hist s) []) ->
+    forall n, r_ca s <= n < S (r_pa s) ->
+      firstn (size' (n mod K)) (data' (n mod K)) = nth n (r_hist s ++ [firstn (size' (r_pi s)) (data' (r_pi s))]) [].
+  Proof.
+    intros Hpi Hle Hlt Hlen Hsame Hwin n Hn.
+    destruct (Nat.eq_dec n (r_pa s)) as [->|Hne].
+    - rewrite <- Hlen at 3. rewrite nth_app_new. rewrite <- Hpi. reflexivity.
+    - rewrite nth_app_old by lia.
+      assert (Hm : n mod K <> r_pi s) by (rewrite Hpi; apply mod_neq; lia).
+      destruct (Hsame _ Hm) as [-> ->]. apply Hwin. lia.
+  Qed.
+
+  Lemma rinv_room s : RInv s ->
+    r_ca s <= r_pa s /\
+    (owner_holds s = true -> r_pa s - r_ca s < K) /\
+    (forall d, r_ppc s = RPSpillWait d -> 1 <= r_trash s -> r_pa s - r_ca s < K) /\
+    (r_cpc s = RCWrite -> r_ca s < r_pa s).
+  Proof.
+    intros [Jout Jtrash Jpi Jci Ja0 Ja1 Jb1 Jst Jb0 Jwin Jexit Jpb Jwr Jdone Jfill Jpois Jcur].
+    unfold owner_holds. runf.
+    repeat split.
+    - destruct (r_ppc s) eqn:Ep; destruct (r_cpc s) eqn:Ec; simpl in *; try lia;
+        try (pose proof (Ja1 eq_refl)); try lia.
+    - intros Ho. destruct (r_ppc s) eqn:Ep; try discriminate; destruct (r_cpc s) eqn:Ec; simpl in *; lia.
+    - intros d Hd Ht. rewrite Hd in *. destruct (r_cpc s) eqn:Ec; simpl in *; lia.
+    - intros Hc. rewrite Hc in *. destruct (r_ppc s) eqn:Ep; simpl in *; try lia; pose proof (Ja1 eq_refl); lia.
+  Qed.
+
+  Ltac ffin :=
+    first [ assumption | reflexivity | lia | discriminate | tauto
+          | (intros; discriminate) | (intros [?|?]; discriminate)
+          | (intros; lia) ].
+
+  Lemma finv_owner s s' : RInv s -> FInv s -> ring_step_owner K B s = Some s' -> FInv s'.
+  Proof.
+    intros R F H. unfold ring_step_owner in H.
+    destruct (rinv_room s R) as (Hle & Hroom & Hroomw & _).
+    pose proof (ri_pi s R) as Jpi.
+    assert (Hst : r_cpc s = RCNotStarted -> r_flushes s = 0).
+    { intros E. rewrite (fi_flush s F), E. reflexivity. }
+    destruct F as [Flen Ffile Fwin Fall Fok Fcur Fstart Frest Ffillgt Fflush Fpois Fdtor].
+    unfold curpart, owner_holds in *.
+    (* goals after the owner left block r_pi s with content data'/size' *)
+    assert (Hhand : forall data' size',
+               (forall m, m <> r_pi s -> data' m = r_data s m /\ size' m = r_size s m) ->
+               r_pa s - r_ca s < K ->
+               length (r_hist s ++ [firstn (size' (r_pi s)) (data' (r_pi s))]) = S (r_pa s) /\
+               r_file s = concat (firstn (r_ca s) (r_hist s ++ [firstn (size' (r_pi s)) (data' (r_pi s))])) /\
+               (forall n, r_ca s <= n < S (r_pa s) ->
+                  firstn (size' (n mod K)) (data' (n mod K)) =
+                  nth n (r_hist s ++ [firstn (size' (r_pi s)) (data' (r_pi s))]) [])).
+    { intros data' size' Hsame Hr. split; [rewrite app_length, Flen; simpl; lia|]. split.
+      - rewrite firstn_app_keep by lia. exact Ffile.
+      - apply (handover_win s data' size'); auto. }
+    destruct (r_ppc s) eqn:Epc.
+    - (* CtorWait *)
+      destruct (r_trash s) as [|t]; [discriminate|]. inversion H; subst s'; clear H.
+      destruct (Fstart (or_introl eq_refl)) as [Hp0 Hc0].
+      constructor; runf; unfold curpart, owner_holds; simpl; rewrite ?Epc in *; try ffin.
+      rewrite Hc0. simpl. exact Fall.
+    - (* Spawn *)
+      destruct (Fstart (or_intror eq_refl)) as [Hp0 Hc0].
+      destruct (Fcur eq_refl) as [Hcl HcB]. specialize (Hroom eq_refl).
+      assert (Ecp : r_cpc s = RCNotStarted) by (apply (ri_started s R); right; exact Epc).
+      inversion H; subst s'; clear H. unfold r_next_write, r_dtor. simpl.
+      rewrite Hc0, Hp0 in *. unfold allbytes in *. simpl in Fall.
+      destruct (r_prog s) as [|w rest] eqn:Eprog.
+      + simpl.
+        destruct (Hhand (r_data s) (upd (r_size s) (r_pi s) 0)) as (G1 & G2 & G3);
+          [intros m Hm; rewrite upd_other by exact Hm; auto|exact Hroom|].
+        constructor; runf; unfold curpart, owner_holds; simpl; rewrite ?Epc in *; try ffin.
+        all: try solve [rewrite concat_app; simpl; rewrite upd_same; simpl; rewrite !app_nil_r in *; exact Fall].
+        all: try solve [rewrite Hst by exact Ecp; reflexivity].
+        all: try solve [intros _; rewrite Nat.sub_0_r, <- Flen, nth_app_new, upd_same; simpl; auto].
+      + inversion Fok as [|w0 r0 Hw Hrest]; subst.
+        destruct w as [w|amount w]; simpl in *.
+        * unfold r_loop_test. simpl.
+          destruct (Nat.ltb B (length w)) eqn:Elt;
+            constructor; runf; unfold curpart, owner_holds, allbytes; simpl; rewrite ?Epc in *; try ffin.
+          all: try solve [intros _; apply Nat.ltb_ge in Elt; simpl in Elt; lia].
+          all: try solve [intros _; apply Nat.ltb_lt in Elt; simpl in Elt; lia].
+        * rewrite andb_false_r.
+          constructor; runf; unfold curpart, owner_holds, allbytes; simpl; rewrite ?Epc in *; try ffin.
+          all: try solve [intros _; lia].
+    - (* Fill *)
+      destruct (Nat.eqb B 0) eqn:EB0; [apply Nat.eqb_eq in EB0; lia|]. inversion H; subst s'; clear H.
+      destruct (Fcur eq_refl) as [Hcl HcB]. specialize (Hroom eq_refl).
+      set (data' := upd (r_data s) (r_pi s) (firstn (r_cur s) (r_data s (r_pi s)) ++ firstn (B - r_cur s) (r_pend s))).
+      set (size' := upd (r_size s) (r_pi s) B).
+      destruct (Hhand data' size') as (G1 & G2 & G3);
+        [intros m Hm; unfold data', size'; rewrite !upd_other by exact Hm; auto|exact Hroom|].
+      assert (Hblk : firstn (size' (r_pi s)) (data' (r_pi s)) = firstn (r_cur s) (r_data s (r_pi s)) ++ firstn (B - r_cur s) (r_pend s)).
+      { unfold data', size'. rewrite !upd_same. apply firstn_all2. rewrite app_length, !firstn_length. lia. }
+      constructor; runf; unfold curpart, owner_holds; simpl; rewrite ?Epc in *; try ffin.
+      rewrite Hblk, concat_app. simpl. rewrite app_nil_r. rewrite <- Fall. rewrite <- !app_assoc. do 2 f_equal.
+      rewrite app_assoc, firstn_skipn. reflexivity.
+    - (* Rest *)
+      destruct (Fcur eq_refl) as [Hcl HcB]. specialize (Hroom eq_refl). pose proof (Frest eq_refl) as Hfit.
+      inversion H; subst s'; clear H. unfold r_next_write, r_dtor. simpl.
+      set (blk := firstn (r_cur s) (r_data s (r_pi s)) ++ r_pend s).
+      set (data' := upd (r_data s) (r_pi s) blk).
+      assert (Hblen : length blk = r_cur s + length (r_pend s)).
+      { unfold blk. rewrite app_length, firstn_length. lia. }
+      destruct (r_prog s) as [|w rest] eqn:Eprog.
+      + (* destructor *)
+        assert (Hall : concat (r_hist s) ++ blk = allbytes prog0).
+        { unfold blk. unfold allbytes in Fall at 1. simpl in Fall. rewrite app_nil_r in Fall. exact Fall. }
+        destruct (Nat.eqb (r_cur s + length (r_pend s)) 0) eqn:Ecur.
+        * apply Nat.eqb_eq in Ecur.
+          destruct (Hhand data' (upd (r_size s) (r_pi s) 0)) as (G1 & G2 & G3);
+            [intros m Hm; unfold data'; rewrite !upd_other by exact Hm; auto|exact Hroom|].
+          assert (Hnil : blk = []) by (apply length_zero_iff_nil; lia).
+          constructor; runf; unfold curpart, owner_holds; simpl; rewrite ?Epc in *; try ffin.
+          all: try solve [rewrite concat_app; simpl; rewrite upd_same; simpl; rewrite !app_nil_r; rewrite <- Hall, Hnil, app_nil_r; reflexivity].
+          all: try solve [intros _; rewrite Nat.sub_0_r, <- Flen, nth_app_new, upd_same; simpl; auto].
+        * apply Nat.eqb_neq in Ecur.
+          destruct (Hhand data' (upd (r_size s) (r_pi s) (r_cur s + length (r_pend s)))) as (G1 & G2 & G3);
+            [intros m Hm; unfold data'; rewrite !upd_other by exact Hm; auto|exact Hroom|].
+          assert (Hb : firstn (upd (r_size s) (r_pi s) (r_cur s + length (r_pend s)) (r_pi s)) (data' (r_pi s)) = blk).
+          { unfold data'. rewrite !upd_same. apply firstn_all2. lia. }
+          constructor; runf; unfold curpart, owner_holds; simpl; rewrite ?Epc in *; try ffin.
+          all: try solve [rewrite Hb, concat_app; simpl; rewrite !app_nil_r; exact Hall].
+      + (* next call *)
+        assert (Hsame : forall n, r_ca s <= n < r_pa s -> data' (n mod K) = r_data s (n mod K)).
+        { intros n Hn. unfold data'. apply upd_other. rewrite Jpi. apply mod_neq; lia. }
+        assert (Hfb : firstn (r_cur s + length (r_pend s)) (data' (r_pi s)) = blk).
+        { unfold data'. rewrite upd_same. apply firstn_all2. lia. }
+        inversion Fok as [|w0 r0 Hw Hrest]; subst.
+        assert (Hall : concat (r_hist s) ++ blk ++ rop_bytes w ++ allbytes rest = allbytes prog0).
+        { rewrite <- Fall. unfold blk, allbytes. simpl. rewrite <- !app_assoc. reflexivity. }
+        destruct w as [w|amount w]; simpl in Hall.
+        * unfold r_loop_test.
+          destruct (Nat.ltb B (r_cur s + length (r_pend s) + length w)) eqn:Elt;
+            constructor; runf; unfold curpart, owner_holds; simpl; rewrite ?Epc in *; try ffin.
+          all: try solve [intros n Hn; rewrite (Hsame n Hn); apply Fwin; exact Hn].
+          all: try solve [rewrite Hfb; exact Hall].
+          all: try solve [intros _; unfold data'; rewrite upd_same; lia].
+          all: try solve [intros _; apply Nat.ltb_ge in Elt; lia].
+        all: try solve [intros _; apply Nat.ltb_lt in Elt; simpl in *; lia].
+          all: try solve [intros _; apply Nat.ltb_lt in Elt; lia].
+        * simpl in Hw.
+          destruct (Nat.ltb B (r_cur s + length (r_pend s) + amount) && negb (Nat.eqb (r_cur s + length (r_pend s)) 0)) eqn:Esp.
+          -- (* partial block handed over *)
+             apply andb_true_iff in Esp. destruct Esp as [_ Ecur]. apply negb_true_iff, Nat.eqb_neq in Ecur.
+             destruct (Hhand data' (upd (r_size s) (r_pi s) (r_cur s + length (r_pend s)))) as (G1 & G2 & G3);
+               [intros m Hm; unfold data'; rewrite !upd_other by exact Hm; auto|exact Hroom|].
+             assert (Hb : firstn (upd (r_size s) (r_pi s) (r_cur s + length (r_pend s)) (r_pi s)) (data' (r_pi s)) = blk).
+             { unfold data'. rewrite !upd_same. apply firstn_all2. lia. }
+             constructor; runf; unfold curpart, owner_holds; simpl; rewrite ?Epc in *; try ffin.
+             all: try solve [rewrite Hb, concat_app; simpl; rewrite !app_nil_r, <- app_assoc; exact Hall].
+          -- apply andb_false_iff in Esp.
+             assert (Hfit2 : r_cur s + length (r_pend s) + length w <= B).
+             { destruct Esp as [Esp|Esp]; [apply Nat.ltb_ge in Esp; lia|].
+               apply negb_false_iff, Nat.eqb_eq in Esp. lia. }
+             constructor; runf; unfold curpart, owner_holds; simpl; rewrite ?Epc in *; try ffin.
+             all: try solve [intros n Hn; rewrite (Hsame n Hn); apply Fwin; exact Hn].
+             all: try solve [rewrite Hfb; exact Hall].
+             all: try solve [intros _; unfold data'; rewrite upd_same; lia].
+    - (* SpillPost *)
+      inversion H; subst s'; clear H.
+      constructor; runf; unfold curpart, owner_holds; simpl; rewrite ?Epc in *; try ffin.
+      all: try solve [intros [E|E]; first [discriminate | (inversion E; subst; apply Fdtor; left; reflexivity)]].
+    - (* SpillWait *)
+      destruct (r_trash s) as [|t] eqn:Et; [discriminate|].
+      pose proof (Hroomw dtor eq_refl ltac:(lia)) as Hr.
+      destruct dtor; inversion H; subst s'; clear H.
+      + destruct (Fdtor (or_intror eq_refl)) as [Hp0 Hg0]. rewrite Hp0, Hg0 in *. simpl in Fall.
+        destruct (Hhand (r_data s) (upd (r_size s) (r_pi s) 0)) as (G1 & G2 & G3);
+          [intros m Hm; rewrite upd_other by exact Hm; auto|exact Hr|].
+        constructor; runf; unfold curpart, owner_holds; simpl; rewrite ?Epc in *; try ffin.
+        all: try solve [rewrite concat_app; simpl; rewrite upd_same; simpl; rewrite !app_nil_r in *; exact Fall].
+        all: try solve [intros _; rewrite Nat.sub_0_r, <- Flen, nth_app_new, upd_same; simpl; auto].
+      + unfold r_loop_test. simpl.
+        destruct (Nat.ltb B (length (r_pend s))) eqn:Elt;
+          constructor; runf; unfold curpart, owner_holds; simpl; rewrite ?Epc in *; try ffin.
+        all: try solve [intros _; apply Nat.ltb_ge in Elt; lia].
+        all: try solve [intros _; apply Nat.ltb_lt in Elt; simpl in *; lia].
+    - (* PoisonPost *)
+      inversion H; subst s'; clear H.
+      constructor; runf; unfold curpart, owner_holds; simpl; rewrite ?Epc in *; try ffin.
+      all: try solve [intros _; apply Fpois; right; reflexivity].
+    - (* PoisonWait *)
+      destruct (r_trash s) as [|t] eqn:Et; [discriminate|]. inversion H; subst s'; clear H.
+      constructor; runf; unfold curpart, owner_holds; simpl; rewrite ?Epc in *; try ffin.
+      all: try solve [intros _; apply Fpois; left; reflexivity].
+    - (* Join *)
+      destruct (r_cpc s) eqn:Ecpc; try discriminate. inversion H; subst s'; clear H.
+      constructor; runf; unfold curpart, owner_holds; simpl; rewrite ?Epc, ?Ecpc in *; try ffin.
+      all: try solve [intros _; apply Fpois; left; reflexivity].
+    - (* LeasePost *)
+      inversion H; subst s'; clear H.
+      constructor; runf; unfold curpart, owner_holds; simpl; rewrite ?Epc in *; try ffin.
+      all: try solve [intros _; apply Fpois; left; reflexivity].
+    - discriminate.
+  Qed.
+
+
+  Lemma finv_writer s s' : RInv s -> FInv s -> ring_step_writer K s = Some s' -> FInv s'.
+  Proof.
+    intros R F H. unfold ring_step_writer in H.
+    destruct (rinv_room s R) as (Hle & _ & _ & Hlt).
+    pose proof (ri_ci s R) as Jci.
+    destruct F as [Flen Ffile Fwin Fall Fok Fcur Fstart Frest Ffillgt Fflush Fpois Fdtor].
+    unfold curpart, owner_holds in *.
+    destruct (r_cpc s) eqn:Ecpc; try discriminate.
+    - inversion H; subst s'; clear H.
+      constructor; runf; unfold curpart, owner_holds; simpl; rewrite ?Ecpc in *; try ffin.
+    - destruct (r_out s) as [|o]; [discriminate|]. inversion H; subst s'; clear H.
+      constructor; runf; unfold curpart, owner_holds; simpl; rewrite ?Ecpc in *; try ffin.
+      all: try solve [destruct (Nat.eqb (r_size s (r_ci s)) 0); assumption].
+    - (* RCWrite *)
+      inversion H; subst s'; clear H. specialize (Hlt eq_refl).
+      assert (Hfile' : r_file s ++ firstn (r_size s (r_ci s)) (r_data s (r_ci s)) = concat (firstn (S (r_ca s)) (r_hist s))).
+      { rewrite concat_firstn_S by lia. rewrite <- Ffile. f_equal. rewrite Jci. apply Fwin. lia. }
+      constructor; runf; unfold curpart, owner_holds; simpl; rewrite ?Ecpc in *; try ffin.
+      intros n Hn. apply Fwin. lia.
+    - inversion H; subst s'; clear H.
+      constructor; runf; unfold curpart, owner_holds; simpl; rewrite ?Ecpc in *; try ffin.
+    - inversion H; subst s'; clear H.
+      constructor; runf; unfold curpart, owner_holds; simpl; rewrite ?Ecpc in *; try ffin.
+    - inversion H; subst s'; clear H.
+      constructor; runf; unfold curpart, owner_holds; simpl; rewrite ?Ecpc in *; try ffin.
+    - inversion H; subst s'; clear H.
+      constructor; runf; unfold curpart, owner_holds; simpl; rewrite ?Ecpc in *; try ffin.
+  Qed.
+
+  Lemma rfinv_reachable s : reachable (ring_step K B) rinit s -> RInv s /\ FInv s.
+  Proof.
+    apply (invariant_reachable _ _ (ring_step K B) (fun s => RInv s /\ FInv s)).
+    - split; [exact rinv_init|exact finv_init].
+    - intros s0 tid s1 [R F] Hs. split; [eapply rinv_step; eauto|].
+      destruct tid as [|[|tid]]; simpl in Hs; [eapply finv_owner|eapply finv_writer|discriminate]; eauto.
+  Qed.
+
+  Lemma concat_last_nil (l : list (list Z)) : l <> [] -> nth (length l - 1) l [] = [] ->
+    concat l = concat (firstn (length l - 1) l).
+  Proof.
+    intros Hne Hnil. destruct (length l) as [|k] eqn:El; [destruct l; [congruence|discriminate]|].
+    replace (S k - 1) with k in * by lia.
+    rewrite <- (firstn_all l) at 1. rewrite El. rewrite concat_firstn_S by lia. rewrite Hnil, app_nil_r. reflexivity.
+  Qed.
+
+  (* safety: at every moment the bytes handed to the writer are a prefix of the concatenation of all writes *)
+  Lemma ring_file_prefix_proof s : reachable (ring_step K B) rinit s ->
+    exists rest, r_file s ++ rest = allbytes prog0.
+  Proof.
+    intros Hr. destruct (rfinv_reachable s Hr) as [R F]. destruct (rinv_room s R) as (Hle & _).
+    destruct F as [Flen Ffile Fwin Fall Fok Fcur Fstart Frest Ffillgt Fflush Fpois Fdtor].
+    exists (concat (skipn (r_ca s) (r_hist s)) ++ curpart s ++ r_pend s ++ allbytes (r_prog s)).
+    rewrite Ffile, app_assoc, <- concat_app, firstn_skipn. exact Fall.
+  Qed.
+
+  (* when both threads have finished: the file is exactly the concatenation of all writes, flushed once,
+     and the writer thread was joined *)
+  Lemma ring_file_complete_proof s : reachable (ring_step K B) rinit s ->
+    r_ppc s = RPDone -> r_cpc s = RCDone ->
+    r_file s = allbytes prog0 /\ r_flushes s = 1.
+  Proof.
+    intros Hr Hp Hc. destruct (rfinv_reachable s Hr) as [R F].
+    pose proof (ri_exit s R) as Jexit. unfold cexiting, poison_posted in Jexit. rewrite Hc, Hp in Jexit.
+    destruct (Jexit eq_refl) as [_ Hba].
+    destruct F as [Flen Ffile Fwin Fall Fok Fcur Fstart Frest Ffillgt Fflush Fpois Fdtor].
+    unfold poison_posted in Fpois. rewrite Hp in Fpois. destruct (Fpois (or_introl eq_refl)) as (Hnil & Hpe & Hpr).
+    split; [|rewrite Fflush, Hc; reflexivity].
+    unfold curpart, owner_holds in Fall. rewrite Hp, Hpe, Hpr in Fall. simpl in Fall. rewrite !app_nil_r in Fall.
+    rewrite Ffile, <- Fall.
+    replace (r_ca s) with (length (r_hist s) - 1) by lia.
+    symmetry. apply concat_last_nil.
+    - intros E. rewrite E in Flen. simpl in Flen. lia.
+    - rewrite Flen. exact Hnil.
+  Qed.
+
+  (* ---- termination: every step decreases a measure, so the destructor always gets through ---- *)
+  Definition rbase (s : rstate) : nat :=
+    6 * (length (r_pend s) + length (allbytes (r_prog s))) + 12 * length (r_prog s).
+  Definition mo (s : rstate) : nat :=
+    match r_ppc s with
+    | RPCtorWait => rbase s + 50
+    | RPSpawn => rbase s + 49
+    | RPFill => rbase s + 30 + (if Nat.ltb (r_cur s) B then 0 else 3)
+    | RPRest => rbase s + 30
+    | RPSpillPost false => rbase s + 32
+    | RPSpillWait false => rbase s + 31
+    | RPSpillPost true => 9
+    | RPSpillWait true => 8
+    | RPPoisonPost => 7 | RPPoisonWait => 6 | RPJoin => 5 | RPLeasePost => 4 | RPDone => 0
+    end.
+  Definition mc (s : rstate) : nat :=
+    match r_cpc s with
+    | RCNotStarted => 7 | RCBegin => 6 | RCWait => 5 | RCWrite => 4 | RCPostTrash => 6
+    | RCExitPost => 3 | RCFlush => 2 | RCEnd => 1 | RCDone => 0
+    end.
+  Definition rmeasure (s : rstate) : nat := 4 * mo s + 3 * (r_pa s - r_ca s) + mc s.
+
+  Lemma allbytes_cons o r : length (allbytes (o :: r)) = length (rop_bytes o) + length (allbytes r).
+  Proof. unfold allbytes. simpl. rewrite app_length. reflexivity. Qed.
+
+  Ltac rcbn := unfold rmeasure, mo, mc, rbase, r_set_p, r_set_c, r_set_sem, r_loop_test in *;
+               cbn [r_ppc r_cpc r_pend r_prog r_cur r_pa r_ca r_out r_trash r_data r_size r_pi r_ci r_file r_wsizes r_flushes r_hist] in *.
+
+  Lemma rmeasure_decreases s tid s' : RInv s -> FInv s -> ring_step K B s tid = Some s' -> rmeasure s' < rmeasure s.
+  Proof.
+    intros R F H. destruct (rinv_room s R) as (Hle & _ & _ & Hlt).
+    pose proof (ri_started s R) as Jst.
+    destruct F as [Flen Ffile Fwin Fall Fok Fcur Fstart Frest Ffillgt Fflush Fpois Fdtor].
+    destruct tid as [|[|tid]]; simpl in H; [| |discriminate].
+    - (* owner *)
+      unfold ring_step_owner in H.
+      destruct (r_ppc s) eqn:Epc.
+      + destruct (r_trash s); [discriminate|]. inversion H; subst s'; clear H. rcbn. rewrite Epc. lia.
+      + (* Spawn *)
+        assert (Ecp : r_cpc s = RCNotStarted) by (apply Jst; right; reflexivity).
+        destruct (Fstart (or_intror eq_refl)) as [Hp0 Hc0].
+        inversion H; subst s'; clear H. unfold r_next_write, r_dtor.
+        destruct (r_prog s) as [|[w|amount w] rest] eqn:Eprog.
+        * rcbn. rewrite Hc0. cbn [Nat.eqb]. rcbn. rewrite Epc, Ecp, Hp0, Eprog. cbn [length allbytes map concat]. lia.
+        * rcbn. rewrite Epc, Ecp, Hp0, Eprog, Hc0, allbytes_cons. cbn [length rop_bytes Nat.add].
+          destruct (Nat.ltb B (length w)); destruct (Nat.ltb 0 B); lia.
+        * rcbn. rewrite Hc0. cbn [Nat.eqb negb]. rewrite andb_false_r. rcbn.
+          rewrite Epc, Ecp, Hp0, Eprog, allbytes_cons. cbn [length rop_bytes]. lia.
+      + (* Fill *)
+        pose proof (Ffillgt eq_refl) as Hgt.
+        destruct (Nat.eqb B 0) eqn:EB0; [apply Nat.eqb_eq in EB0; lia|]. inversion H; subst s'; clear H. rcbn.
+        rewrite Epc, skipn_length.
+        destruct (Nat.ltb (r_cur s) B) eqn:Ec; [apply Nat.ltb_lt in Ec|apply Nat.ltb_ge in Ec]; lia.
+      + (* Rest *)
+        inversion H; subst s'; clear H. unfold r_next_write, r_dtor.
+        destruct (r_prog s) as [|[w|amount w] rest] eqn:Eprog.
+        * destruct (Nat.eqb (r_cur s + length (r_pend s)) 0); rcbn; rewrite Epc, Eprog; cbn [length allbytes map concat]; lia.
+        * rcbn. rewrite Epc, Eprog, allbytes_cons. cbn [length rop_bytes].
+          destruct (Nat.ltb B (r_cur s + length (r_pend s) + length w));
+            destruct (Nat.ltb (r_cur s + length (r_pend s)) B); lia.
+        * destruct (Nat.ltb B (r_cur s + length (r_pend s) + amount) && negb (Nat.eqb (r_cur s + length (r_pend s)) 0));
+            rcbn; rewrite Epc, Eprog, allbytes_cons; cbn [length rop_bytes]; lia.
+      + destruct dtor; inversion H; subst s'; clear H; rcbn; rewrite Epc; lia.
+      + destruct (r_trash s); [discriminate|].
+        destruct dtor; inversion H; subst s'; clear H; rcbn; rewrite Epc.
+        * lia.
+        * destruct (Nat.ltb B (0 + length (r_pend s))); [|lia].
+          destruct (Nat.ltb 0 B) eqn:E0; [lia|apply Nat.ltb_ge in E0; lia].
+      + inversion H; subst s'; clear H; rcbn; rewrite Epc; lia.
+      + destruct (r_trash s); [discriminate|]. inversion H; subst s'; clear H; rcbn; rewrite Epc; lia.
+      + destruct (r_cpc s) eqn:Ec; try discriminate. inversion H; subst s'; clear H; rcbn; rewrite Epc, Ec; lia.
+      + inversion H; subst s'; clear H; rcbn; rewrite Epc; lia.
+      + discriminate.
+    - (* writer *)
+      unfold ring_step_writer in H.
+      destruct (r_cpc s) eqn:Ec; try discriminate.
+      + inversion H; subst s'; clear H; rcbn; rewrite Ec; lia.
+      + destruct (r_out s); [discriminate|]. inversion H; subst s'; clear H; rcbn; rewrite Ec.
+        destruct (Nat.eqb (r_size s (r_ci s)) 0); lia.
+      + specialize (Hlt eq_refl). inversion H; subst s'; clear H; rcbn; rewrite Ec. lia.
+      + inversion H; subst s'; clear H; rcbn; rewrite Ec; lia.
+      + inversion H; subst s'; clear H; rcbn; rewrite Ec; lia.
+      + inversion H; subst s'; clear H; rcbn; rewrite Ec; lia.
+      + inversion H; subst s'; clear H; rcbn; rewrite Ec; lia.
+  Qed.
+
+  Lemma ring_run_measure ls : forall s s', RInv s -> FInv s -> run (ring_step K B) s ls = Some s' -> length ls + rmeasure s' <= rmeasure s.
+  Proof.
+    induction ls as [|l r IH]; intros s s0 R F H; simpl in H.
+    - inversion H; subst; simpl; lia.
+    - destruct (ring_step K B s l) as [s1|] eqn:E; [|discriminate].
+      pose proof (rmeasure_decreases _ _ _ R F E).
+      assert (R1 : RInv s1) by (eapply rinv_step; eauto).
+      assert (F1 : FInv s1).
+      { destruct l as [|[|l]]; simpl in E; [exact (finv_owner _ _ R F E)|exact (finv_writer _ _ R F E)|discriminate]. }
+      pose proof (IH _ _ R1 F1 H). simpl. lia.
+  Qed.
+
+  (* every schedule of constructor + writes + destructor is finite *)
+  Lemma ring_runs_bounded_proof ls s : run (ring_step K B) rinit ls = Some s -> length ls <= rmeasure rinit.
+  Proof. intros H. pose proof (ring_run_measure ls _ _ rinv_init finv_init H). lia. Qed.
 End RingProofs.
